@@ -106,7 +106,35 @@ func evaluate(info outInfo, out []byte, eol string, oracle bool, ctxFrees []free
 				continue
 			}
 			seen[f.class] = true
-			r.OracleFail(f.class+":"+kind, info, f.detail)
+			cl := f.class + ":" + kind
+			if strings.HasPrefix(f.class, "free-list") {
+				cl = f.class + ":" + info.Op // the free list is op-specific, not writer-configuration-specific
+			}
+			r.OracleFail(cl, info, f.detail)
+		}
+	}
+	// what the extracted Coq checker must say about the same bytes (first rejecting stage)
+	stage := 0
+	rowsOK := true
+	for _, f := range ck.findings {
+		st := 0
+		switch {
+		case f.class == "header":
+			st = 1
+		case f.class == "tail-syntax":
+			st = 2
+		case f.class == "startxref-target" || f.class == "xref-syntax":
+			st = 3
+		case strings.HasPrefix(f.class, "size") || strings.HasPrefix(f.class, "free-list"):
+			st = 4
+		case f.class == "inuse-offset":
+			st = 5
+		}
+		if st >= 3 {
+			rowsOK = false
+		}
+		if st != 0 && (stage == 0 || st < stage) {
+			stage = st
 		}
 	}
 	if ck.sec == nil || ck.scan == nil {
@@ -143,7 +171,7 @@ func evaluate(info outInfo, out []byte, eol string, oracle bool, ctxFrees []free
 		r.Case("layout", []string{vh.Int(int64(ck.scan.vmaj)), vh.Int(int64(ck.scan.vmin)), strconv.Itoa(eolIndex(eol)),
 			objsArg(ck.scan.objs), freesArg(frees), vh.Int(int64(size)), vh.Hex(tpre)}, vh.Hex(out))
 		if oracle {
-			r.Case("check", []string{vh.Hex(out)}, "0")
+			r.Case("check", []string{vh.Hex(out)}, strconv.Itoa(stage))
 		}
 	} else if oracle {
 		var rows []string
@@ -153,7 +181,7 @@ func evaluate(info outInfo, out []byte, eol string, oracle bool, ctxFrees []free
 			}
 			rows = append(rows, vh.Int(int64(e.nr))+":"+vh.Int(int64(e.a))+":"+vh.Int(int64(e.b))+":"+vh.Bool(e.typ == 0))
 		}
-		r.Case("checkrows", []string{vh.Hex(out), vh.Int(int64(sec.size)), vh.Int(int64(ck.maxComp)), strings.Join(rows, ";")}, "true")
+		r.Case("checkrows", []string{vh.Hex(out), vh.Int(int64(sec.size)), vh.Int(int64(ck.maxComp)), strings.Join(rows, ";")}, vh.Bool(rowsOK))
 	}
 }
 
